@@ -105,8 +105,9 @@ fn write_async_soap_call<W>(writer: &mut W, operation_name: &str, operation: &So
 where
     W: io::Write,
 {
-    // generate an async fn for the operation
+    // generate an async fn for the operation; `new` is the constructor of the service
     let rust_fn_name = as_field_name(operation_name);
+    let rust_fn_name = if rust_fn_name == "new" { "new_".to_string() } else { rust_fn_name };
     // the envelope types are named after the operation in PascalCase, see the binding writer
     let operation_name = as_identifier(&to_pascal_case(operation_name));
     let request_name = format!("{operation_name}InputEnvelope");
